@@ -4,6 +4,9 @@ import (
 	"flag"
 	"fmt"
 	"os"
+	"runtime/pprof"
+	"strings"
+	"syscall"
 	"time"
 
 	"github.com/MixinNetwork/mixin/common"
@@ -23,7 +26,20 @@ func main() {
 	distinct := flag.Bool("distinct", false, "every UTXO has its own key set (slow: inputs*keys signatures per tx)")
 	mode := flag.String("mode", "relay", "relay: one relayer neighbor, messages are relay wrapped; direct: targets are direct neighbors")
 	seed := flag.String("seed", "c31demo", "seed of all derived keys")
+	reuse := flag.Bool("reuse", false, "all big transactions spend the same UTXOs (one funding transaction only)")
+	prevalidate := flag.Bool("prevalidate", true, "time one Validate call on the first transaction before queueing")
+	cpuprofile := flag.String("cpuprofile", "", "write a CPU profile to this file")
 	flag.Parse()
+	doPrevalidate = *prevalidate
+	if *cpuprofile != "" {
+		pf, err := os.Create(*cpuprofile)
+		if err != nil {
+			fmt.Println(err)
+			os.Exit(2)
+		}
+		pprof.StartCPUProfile(pf)
+		defer pprof.StopCPUProfile()
+	}
 
 	t0 := time.Now()
 	f, err := newFixture(*seed, *mode)
@@ -34,7 +50,13 @@ func main() {
 	code := 0
 	defer func() {
 		f.close()
-		os.Exit(code)
+		if r := recover(); r != nil {
+			panic(r)
+		}
+		if code != 0 {
+			pprof.StopCPUProfile()
+			os.Exit(code)
+		}
 	}()
 	fmt.Printf("node %s mode=%s working-nodes=%d local-can-propose=%v setup=%s\n",
 		f.b.SelfId(), *mode, len(f.b.WorkingNodes()), f.b.LocalCanPropose(), time.Since(t0).Round(time.Millisecond))
@@ -48,6 +70,7 @@ func main() {
 		}
 	}
 	if *big > 0 {
+		f.reuse = *reuse
 		fmt.Printf("== big run: %d transactions of %d inputs x %d keys distinct=%v\n", *big, *inputs, *keys, *distinct)
 		if !run(f, *big, *inputs, *keys, *extra, *distinct) {
 			code = 1
@@ -55,20 +78,45 @@ func main() {
 	}
 }
 
+var doPrevalidate bool
+
+// stopwatch reports wall time and process CPU time (user+sys); on a loaded
+// machine the CPU time of a single-threaded phase is the better estimate.
+type stopwatch struct {
+	wall time.Time
+	cpu  time.Duration
+}
+
+func cpuNow() time.Duration {
+	var ru syscall.Rusage
+	syscall.Getrusage(syscall.RUSAGE_SELF, &ru)
+	return time.Duration(ru.Utime.Nano() + ru.Stime.Nano())
+}
+
+func start() stopwatch { return stopwatch{time.Now(), cpuNow()} }
+
+func (s stopwatch) String() string {
+	return fmt.Sprintf("wall=%s cpu=%s", time.Since(s.wall).Round(time.Millisecond), (cpuNow() - s.cpu).Round(time.Millisecond))
+}
+
 func run(f *fixture, n, inputs, keys, extra int, distinct bool) bool {
-	t := time.Now()
-	if err := f.fund(keys, n*inputs, distinct); err != nil {
+	t := start()
+	need := n * inputs
+	if f.reuse {
+		need = inputs
+	}
+	if err := f.fund(keys, need, distinct); err != nil {
 		fmt.Println("fund error:", err)
 		return false
 	}
-	fmt.Printf("fund: %d UTXOs in %s\n", n*inputs, time.Since(t).Round(time.Millisecond))
+	fmt.Printf("fund: %d UTXOs in %s\n", need, t)
 
-	t = time.Now()
+	t = start()
 	txs := make([]*common.VersionedTransaction, n)
 	order := make(map[crypto.Hash]int)
 	var sumSigned, sumUnsigned int
 	for i := range txs {
-		ti := time.Now()
+		ti := start()
 		tx, err := f.buildSignedTx(inputs, keys, extra)
 		if err != nil {
 			fmt.Println("build error:", err)
@@ -81,19 +129,21 @@ func run(f *fixture, n, inputs, keys, extra int, distinct bool) bool {
 		sumSigned += s
 		if i == 0 {
 			fmt.Printf("tx[0] %s unsigned(ValidatedSize)=%d signed(len(Marshal))=%d build+sign=%s\n",
-				tx.PayloadHash(), u, s, time.Since(ti).Round(time.Millisecond))
+				tx.PayloadHash(), u, s, ti)
 		}
 	}
-	fmt.Printf("sign: %d txs in %s; sum unsigned=%d sum signed=%d\n", n, time.Since(t).Round(time.Millisecond), sumUnsigned, sumSigned)
+	fmt.Printf("sign: %d txs in %s; sum unsigned=%d sum signed=%d\n", n, t, sumUnsigned, sumSigned)
 
-	t = time.Now()
-	if err := f.b.Validate(txs[0]); err != nil {
-		fmt.Println("validate error:", err)
-		return false
+	if doPrevalidate {
+		t = start()
+		if err := f.b.Validate(txs[0]); err != nil {
+			fmt.Println("validate error:", err)
+			return false
+		}
+		fmt.Printf("validate: tx[0] alone in %s (ValidatedSize=%d)\n", t, txs[0].ValidatedSize())
 	}
-	fmt.Printf("validate: tx[0] alone in %s (ValidatedSize=%d)\n", time.Since(t).Round(time.Millisecond), txs[0].ValidatedSize())
 
-	t = time.Now()
+	t = start()
 	for _, tx := range txs {
 		if err := f.b.Queue(tx); err != nil {
 			fmt.Println("queue error:", err)
@@ -101,14 +151,19 @@ func run(f *fixture, n, inputs, keys, extra int, distinct bool) bool {
 		}
 		time.Sleep(time.Microsecond) // queue key is the wall clock in ns, keep the order
 	}
-	fmt.Printf("queue: %d txs in %s\n", n, time.Since(t).Round(time.Millisecond))
+	fmt.Printf("queue: %d txs in %s\n", n, t)
 
-	t = time.Now()
+	t = start()
 	popped, sent, pv := f.b.RunOnce()
-	fmt.Printf("RunOnce: popped=%d messages=%d panic=%v in %s\n", popped, len(sent), pv != nil, time.Since(t).Round(time.Millisecond))
+	fmt.Printf("RunOnce: popped=%d messages=%d panic=%v in %s\n", popped, len(sent), pv != nil, t)
 	if pv != nil {
 		s := fmt.Sprint(pv)
 		fmt.Printf("PANIC value: %d chars, head %.40s...\n", len(s), s)
+		for _, line := range strings.Split(f.b.LastPanicStack, "\n") {
+			if strings.Contains(line, "mixin/p2p.") || strings.Contains(line, "mixin/kernel.(*Node)") {
+				fmt.Printf("PANIC stack: %.160s\n", strings.TrimSpace(line))
+			}
+		}
 		if len(s)%2 == 0 && len(s)/2 > p2p.VerifC31TransportMessageMaxSize {
 			fmt.Printf("PANIC is buildRelayMessage's hex dump of a %d byte message > TransportMessageMaxSize %d\n", len(s)/2, p2p.VerifC31TransportMessageMaxSize)
 		}
